@@ -138,9 +138,9 @@ PROPS = {
                       "input() pushes a read frame holding exactly the input's padded bits. This is the property's 'independent of where values sit in memory' at the level "
                       "where it is implemented. PARTIAL: the per-combinator arms of exec_with_tracker and the jets are not under contract.",
         "level_note": "Not decided by proof: the combinator arms of exec_with_tracker (watched: a change leaves the run undecided), exec_jet, the C jets themselves. In the thorough tier and as "
-                      "fallback two BOUNDED native enumerations stand in for them: c05_machine_semantics_replay (960 executions - several thousand in the thorough tier - of programs over every "
+                      "fallback two BOUNDED native enumerations stand in for them: c05_machine_semantics_replay (2073 executions - several thousand in the thorough tier - of programs over every "
                       "combinator incl. disconnect (the right branch's root reaches the left branch), assertl / assertr and fail nodes (executions that must FAIL), compared with a direct evaluator of the "
-                      "big-step semantics, debug assertions on; it found defect D8 - zero-width outputs returned as unit - fixed in /repo) and c05_jet_semantics_replay (2 x 66 Core / Elements "
+                      "big-step semantics, debug assertions on; it found defect D8 - zero-width outputs returned as unit - fixed in /repo) and c05_jet_semantics_replay (2 x 88 Core / Elements "
                       "arithmetic, logic and comparison jets through the real dispatch tables and FFI against integer arithmetic). The generated c_jet_ptr / source_ty / target_ty tables are watched. Assumed as for C07.",
         "assumptions": ["data buffer shorter than 2^60 bytes"],
         "not_decided": ["per-combinator semantics of exec_with_tracker", "exec_jet and jet functions (C code)"],
@@ -312,8 +312,20 @@ PROPS = {
         "parallel_units": True,
         "kani": {"quick": [], "thorough": []},
         "native_cex": "c14_jet_codes_replay",
-        "native_thorough": "c14_jet_codes_replay",
-        "native_fallback": "c14_jet_codes_replay",
+        "native_thorough": ["c14_jet_codes_replay", "c14_jet_names_replay"],
+        "native_fallback": ["c14_jet_codes_replay", "c14_jet_names_replay"],
+        # the generated name tables (Display / FromStr): string matching is outside Verus; watched, with the exhaustive native
+        # enumeration c14_jet_names_replay (names parse back; Core jets vs their Elements namesakes) as the labelled stand-in
+        "watch": [("src/jet/init/core.rs", "impl[=impl fmt::Display for Core] / fn:fmt", "86ab6558276edc70"),
+                  ("src/jet/init/core.rs", "impl[=impl str::FromStr for Core] / fn:from_str", "3bc7aca769357393"),
+                  ("src/jet/init/elements.rs", "impl[=impl fmt::Display for Elements] / fn:fmt", "c89971d579eb36f8"),
+                  ("src/jet/init/elements.rs", "impl[=impl str::FromStr for Elements] / fn:from_str", "e42960fa495f03b2"),
+                  ("src/jet/init/bitcoin.rs", "impl[=impl fmt::Display for Bitcoin] / fn:fmt", "2203e9ee8d1332d9"),
+                  ("src/jet/init/bitcoin.rs", "impl[=impl str::FromStr for Bitcoin] / fn:from_str", "85dc1501f0d82586"),
+                  ("src/jet/init/core.rs", "impl[=impl Jet for Core] / fn:source_ty", "70212ecd48ee3f34"),
+                  ("src/jet/init/core.rs", "impl[=impl Jet for Core] / fn:target_ty", "c130caffc8451900"),
+                  ("src/jet/init/elements.rs", "impl[=impl Jet for Elements] / fn:source_ty", "daa7d6f09bf0eb43"),
+                  ("src/jet/init/elements.rs", "impl[=impl Jet for Elements] / fn:target_ty", "708e177110ce8dae")],
         "level": "proof",
         "level_text": "Deductive proof (Verus), exhaustive over the three finite jet families (368 Core, 471 Elements, 428 Bitcoin jets): the real `encode` of each "
                       "family writes exactly its table's code; the real `decode` (its `decode_bits!` tree expanded by the macro's own three rules and cut into sub-tree "
@@ -324,14 +336,15 @@ PROPS = {
                       "R20 outlining, G2 decision-tree spec, G3 proof scripts); every generated step is checked by Verus (Z3, and Verus' interpreter for the arithmetic of the "
                       "1267 literal codes). Assumed: BitIter::next's and BitWriter::write_bits_be's contracts (proved in unit `bitstream`, property C13); the extractor expands "
                       "`decode_bits!` exactly as rustc would (the macro text is compared with the three rules the expander implements, else the run is undecided); `.into()` on "
-                      "decode::Error is the identity. NOT decided: name <-> parse round trip (str), every comparison with libsimplicity's C tables (roots, types, costs) and "
-                      "C prototypes, Core-vs-Elements type names, exec_jet buffer sizes.",
+                      "decode::Error is the identity. NOT decided by proof: name <-> parse round trip (str) and Core-vs-Elements namesake types / codes - both covered only by the exhaustive native "
+                      "enumeration c14_jet_names_replay (thorough tier; fallback when one of the watched generated tables changes), labelled bounded; every comparison with libsimplicity's C tables "
+                      "(roots, types, costs) and C prototypes, exec_jet buffer sizes: not addressed.",
         "assumptions": [
             "BitIter::next and BitWriter::write_bits_be satisfy the contracts proved for them in unit bitstream (C13)",
             "the extractor's expansion of decode_bits! equals rustc's (three-rule macro, text compared on every run)",
             "ByteSrc / ByteSink contracts of the caller-supplied byte iterator / writer",
         ],
-        "not_decided": ["name parses back to the jet (str)", "cmr / source_ty / target_ty / cost equal libsimplicity's tables", "Core jets have the types of their Elements namesakes",
+        "not_decided": ["name parses back to the jet (str) - native enumeration only", "cmr / source_ty / target_ty / cost equal libsimplicity's tables", "Core jets have the types and codes of their Elements namesakes - native enumeration only",
                         "extern declarations match the C prototypes", "exec_jet buffer widths"],
         "explanation": "",
     },
